@@ -5,7 +5,7 @@ bootstrap.setup()
 
 from typing import Any, Optional  # noqa: E402
 
-from pydantic import BaseModel  # noqa: E402
+from pydantic import BaseModel, Field  # noqa: E402
 from workflows.events import Event, HumanResponseEvent, InputRequiredEvent, StartEvent, StopEvent  # noqa: E402
 
 
@@ -50,6 +50,27 @@ class TAsk(InputRequiredEvent):
 
 class TAnswer(HumanResponseEvent):
     response: str = ""
+
+
+SEQ = {"n": 0}
+
+
+def next_seq() -> int:
+    SEQ["n"] += 1
+    return SEQ["n"]
+
+
+class Stamped(Event):
+    """typed fields that callers usually leave to their defaults: a counter-like default_factory and a mutable default
+    that is filled in place after construction"""
+    seq: int = Field(default_factory=next_seq)
+    tags: list[str] = Field(default_factory=list)
+    note: str = "n/a"
+
+
+class StampedStop(StopEvent):
+    seq: int = Field(default_factory=next_seq)
+    tags: list[str] = Field(default_factory=list)
 
 
 class CustomErr(Exception):
